@@ -18,11 +18,16 @@ func VerifC11_Required() {
 	level := vInt("level", 0, 1)   // 0: root is selected, 1: command c is selected
 	supply := vInt("supply", 0, 4) // 0 none, 1 by name, 2 by alias, 3 by unique abbreviation, 4 by environment
 	custom := vBool("custom")      // custom message declared
+	percent := vBool("percent")    // ... one that contains a per cent sign
 	inherited := vBool("inherited") // level 1: the required option is the root's (inherited) or the command's own
-	help := vInt("help", 0, 6)     // 0 no, 1 --help, 2 -? alias, 3 --hel abbreviation, 4 help command, 5 help <topic>, 6 help <unknown topic>
-	val := positional("val", "c", "help")
+	help := vInt("help", 0, 7)     // 0 no, 1 --help, 2 -? alias, 3 --hel abbreviation, 4 help command, 5 help <topic>, 6 help <unknown topic>
+	val := positional("val", "c", "help", "wrap")
 	msg := vString("msg")
 	vAssume(msg != "")
+	if percent {
+		vAssume(custom)
+		msg = "at least 80% statement coverage, 100%!"
+	}
 
 	if supply == 4 {
 		vAssume(val != "")
@@ -50,6 +55,9 @@ func VerifC11_Required() {
 	if !ownAtRoot {
 		target = cmd.String("required", "", req(cmd), cmd.Alias("rq"), cmd.GetEnv(c11env))
 	}
+	wrap := opt.NewCommand("wrap", "a wrapper")
+	wrap.UnsetOptions().SetUnknownMode(Pass)
+	wrap.SetCommandFn(func(ctx context.Context, o *GetOpt, a []string) error { ran += "wrap;"; return nil })
 	opt.HelpCommand("help", opt.Alias("?"))
 
 	var args []string
@@ -86,6 +94,10 @@ func VerifC11_Required() {
 	case 6:
 		vAssume(level == 0)
 		args = append(args, "help", "nosuchtopic")
+	case 7:
+		// help requested before the name of a wrapper command (which has no inherited help option)
+		vAssume(level == 0)
+		args = append(args, "--help", "wrap")
 	}
 	vPhase("run")
 	remaining, err := opt.Parse(args)
@@ -116,6 +128,9 @@ func VerifC11_Required() {
 		vAssert("help/text-written", strings.Contains(written, "SYNOPSIS"))
 		if help == 5 || level == 1 {
 			vAssert("help/of-that-level", strings.Contains(written, " c "))
+		}
+		if help == 7 {
+			vAssert("help/of-that-level", strings.Contains(written, " wrap "))
 		}
 		if final != nil {
 			vAssert("help/no-missing-required-error", !errors.Is(final, ErrorParsing))
